@@ -2,7 +2,7 @@
 """Copies confirmed seeded changes into /verif/seeded/<id>/ and records which checks catch them (quick tier)."""
 import json, os, re, shutil, subprocess, sys, glob
 related = {  # additional checks worth running besides the property the change was written for
- "C01": ["C03"], "C02": ["C03"], "C03": ["C01", "C02"], "C04": ["C07"], "C05": ["C07"], "C06": ["C07"], "C07": [], "C08": [], "C09": [], "C10": ["C07"],
+ "C01": ["C17"], "C02": ["C03"], "C03": ["C01", "C02"], "C04": ["C07"], "C05": ["C07"], "C06": ["C07"], "C07": [], "C08": [], "C09": [], "C10": ["C07"],
  "C11": [], "C12": ["C15"], "C13": [], "C14": [], "C15": ["C18"], "C16": [], "C17": [], "C18": ["C15"], "C19": [], "C20": [],
 }
 MISSED = {
@@ -16,6 +16,16 @@ MISSED = {
  "C20-4": "missed (loops were driven by next()/for only); caught after loops through std adapters (map/take_while/collect/unzip) and size_hint probing were added",
  "C17-4": "caught at once, through the serialisability clause; the clause the author aimed at (reader panics when a neighbour is released) is now also reached by the isolate+release free-running pairs",
  "C10-4": "caught at once",
+ "C01-4": "not a C01 violation in any sequential history (C01 quantifies over sequences of calls; the change only misbehaves when two threads disconnect into the same target concurrently); the C01 check is silent by design and the C17 check reports it (quiescent.mirror-or-symmetry-broken) in the quick tier",
+ "C02-4": "caught at once (observe.into-iter: `for e in &node` cross-checked against iter())",
+ "C05-4": "missed (no filter closure ran a search of its own); caught after filters that run a nested search ('target can still reach k') were added to all search checks",
+ "C09-4": "missed (same reason as C05-4); caught after nested-search filters were added",
+ "C06-4": "missed (every node value type had PartialOrd == Ord); caught after the payload programs got a Score(f64) value type (IEEE PartialOrd, total-order Ord) and a direct node comparison step",
+ "C08-4": "missed (node values never changed during a search and the reversed-graph comparison was evidence only); caught after the Dijkstra-style relaxing for_each closure was added and 'differs from the same operation on the reversed graph' became a violation",
+ "C11-4": "missed (deepest scc input had 300 nodes); caught after chains / chains of 2-cycles / chains with back edges of 2100-12000 nodes (65000 thorough) were added on a large-stack thread",
+ "C14-4": "missed (value expressions were literals or plain calls); caught after value expressions with a guard temporary (`cell.borrow_mut().take(v)`) were generated",
+ "C15-4": "missed (node values never changed during a search); caught after the relaxing for_each closure was added to the differential programs",
+ "C16-4": "caught at once (per-position Sync-but-not-Send witness in the edge value)",
 }
 def run(patch, props):
     out = subprocess.run(["/verif/tools/try_mutant.sh", patch, "quick"] + props, capture_output=True, text=True, timeout=3600).stdout
